@@ -863,6 +863,12 @@ class H2Stream:
         """
         self.config.logger.debug("Send headers %s on %r", headers, self)
 
+        # What kind of header block this is, and what we remember about it,
+        # has to be decided on the headers as they will be sent, not as the
+        # user spelled them (":STATUS", " :method ").
+        if self.config.normalize_outbound_headers:
+            headers = list(normalize_outbound_headers(headers, None))
+
         # Because encoding headers makes an irreversible change to the header
         # compression context, we make the state transition before we encode
         # them.
